@@ -297,6 +297,29 @@ fn cases_for_program(rng: &mut Rng, text: &str, rich: bool, out: &mut Vec<Case>,
                 break;
             }
         }
+        // a long string of multi-byte characters (0-3 ASCII characters in front) where no string belongs: the text of
+        // serde's complaint quotes the value; the answer must still be InvalidParameter
+        let mut nlong = 0;
+        for (f, ft) in m.input.iter() {
+            let (rt, _) = resolve(&idl, ft);
+            if matches!(rt, Ty::Str | Ty::Object | Ty::Enum(_)) || matches!(rt, Ty::Opt(i) if matches!(resolve(&idl, i).0, Ty::Str | Ty::Object | Ty::Enum(_))) {
+                continue;
+            }
+            for pre in 0..4usize {
+                if nlong >= 8 {
+                    break;
+                }
+                nlong += 1;
+                let ch = ["\u{20ac}", "\u{fc}", "\u{1d11e}", "\u{20ac}"][(pre + nlong) % 4];
+                let n = [90usize, 130, 260, 700][(pre + f.len()) % 4];
+                let s = format!("{}{}", &"abc"[..pre.min(3)], ch.repeat(n));
+                let mut j = good.clone();
+                if let Value::Object(o) = &mut j {
+                    o.insert(f.clone(), Value::from(s));
+                }
+                out.push(Case { input: raw_case(text, &mk(Some(j), None)), tags: tag("raw-long-multibyte-string") });
+            }
+        }
         for _ in 0..2 {
             let mut j = good.clone();
             let mt = mutate_json(rng, &mut j);
@@ -389,6 +412,8 @@ pub fn witnesses() -> Vec<(&'static str, &'static str)> {
         ("ok", "interface a.b\nmethod M(x: int) -> (y: int)\n"),
         ("ok", "interface X--y.9.Z-0.q.UPPER.l0-w--3r\ntype T (a: int)\nmethod Get(t: T) -> (t: ?T)\nerror E9 ()\n"),
         ("ok", "interface org.example.tags\ntype Tagged (name: string, tags: [string](), groups: [][string](), maybe: ?[string](), byname: [string][string]())\nmethod Tag(tags: [string]()) -> (tags: [string]())\nmethod Merge(sets: [][string](), extra: ?[string](), t: Tagged) -> (all: [string](), t: ?Tagged)\nerror Bad (seen: [string]())\n"),
+        // method and error names ending in / consisting of runs of capitals and digits (to_snake_case corners)
+        ("ok", "interface org.example.w\nmethod GetID() -> ()\nmethod SetTTL(t: int) -> ()\nmethod XY() -> ()\nmethod X() -> ()\nmethod HTTPServer2() -> ()\nmethod A1B2() -> ()\nmethod AB() -> ()\nerror BadIO ()\nerror EOF (at: int)\nerror E2BIG ()\n"),
         // accepted definitions whose TEXT is hostile to being pasted into Rust source (the description is emitted verbatim)
         ("ok", "# he said \"# and r#\" and \"## \\ \\\" */ {}\ninterface org.example.w\n\n# \"#\nmethod Foo(a: int) -> (b: int)\n"),
         ("ok", "# CR only\rinterface org.example.w\r\r# second comment \"#\rmethod Foo(a: int) -> (b: int)\rerror Bad (why: string)\r"),
@@ -724,6 +749,11 @@ fn all_cases(ctx: &Ctx) -> Vec<Case> {
     let fronts = ["build", "tosource", "bin", "bin-stdin"];
     for (i, text) in texts.iter().take(if ctx.thorough { 12 } else { 3 }).enumerate() {
         cases.push(Case { input: front_case("compile", text), tags: vec!["kind:front".into(), "front:compile".into(), "parse:accepted".into()] });
+        for w in ["reader-bytewise", "reader-members", "reader-chain", "reader-ragged", "bin-pipe2"] {
+            if ctx.thorough || w != "bin-pipe2" || i == 0 {
+                cases.push(Case { input: front_case(w, text), tags: vec!["kind:front".into(), format!("front:{}", w), "parse:accepted".into()] });
+            }
+        }
         for w in fronts {
             cases.push(Case { input: front_case(w, text), tags: vec!["kind:front".into(), format!("front:{}", w), "parse:accepted".into()] });
         }
@@ -731,6 +761,10 @@ fn all_cases(ctx: &Ctx) -> Vec<Case> {
         if i < 2 && !text.contains("\"#") {
             cases.push(Case { input: front_case("derive", text), tags: vec!["kind:front".into(), "front:derive".into(), "parse:accepted".into()] });
         }
+    }
+    for w in ["reader-bytewise", "reader-members", "reader-chain", "reader-ragged", "bin-pipe2"] {
+        cases.push(Case { input: front_case(w, SESSION_A), tags: vec!["kind:front".into(), format!("front:{}", w), "parse:accepted".into()] });
+        cases.push(Case { input: front_case(w, "interface org.example.w\nmethod lower() -> ()\n"), tags: vec!["kind:front".into(), format!("front:{}", w), "parse:rejected".into()] });
     }
     for w in ["build", "tosource", "bin", "derive", "compile"] {
         cases.push(Case { input: front_case(w, witnesses()[0].1), tags: vec!["kind:front".into(), format!("front:{}", w), "gen:panic".into()] });
@@ -795,6 +829,15 @@ fn all_cases(ctx: &Ctx) -> Vec<Case> {
         let long = ok_w.iter().cloned().max_by_key(|t| t.len()).unwrap();
         for which in ["one", "many", "tosource"] {
             for (a, b, tag) in [(long, short, "long-then-short"), (short, long, "short-then-long"), (long, long, "same-twice")] {
+                cases.push(Case { input: regen_case(which, a, b), tags: vec!["kind:regen".into(), format!("front:{}", which), format!("regen:{}", tag)] });
+            }
+        }
+        // a rejected definition must be refused with a diagnostic EVERY time (the failed first run must not make the second
+        // run believe there is nothing to do), also right after / before an accepted one
+        let bad = "interface org.example.w\nmethod lower() -> ()\n";
+        let bad2 = "interface org.example.w\nmethod Foo(a: int,\n";
+        for which in ["one", "many", "tosource"] {
+            for (a, b, tag) in [(bad, bad, "rejected-twice"), (short, bad, "accepted-then-rejected"), (bad, short, "rejected-then-accepted"), (bad2, bad, "rejected-then-other-rejected")] {
                 cases.push(Case { input: regen_case(which, a, b), tags: vec!["kind:regen".into(), format!("front:{}", which), format!("regen:{}", tag)] });
             }
         }
@@ -946,6 +989,67 @@ fn status_of(code: Option<i32>, stderr: &str) -> &'static str {
     }
 }
 
+/// a reader that returns one piece per `read` call (short reads), then EOF
+struct PieceReader {
+    pieces: Vec<Vec<u8>>,
+    at: usize,
+    off: usize,
+}
+impl std::io::Read for PieceReader {
+    fn read(&mut self, buf: &mut [u8]) -> std::io::Result<usize> {
+        while self.at < self.pieces.len() && self.off >= self.pieces[self.at].len() {
+            self.at += 1;
+            self.off = 0;
+        }
+        if self.at >= self.pieces.len() || buf.is_empty() {
+            return Ok(0);
+        }
+        let p = &self.pieces[self.at];
+        let n = (p.len() - self.off).min(buf.len());
+        buf[..n].copy_from_slice(&p[self.off..self.off + n]);
+        self.off += n;
+        Ok(n)
+    }
+}
+
+/// how a definition text is cut into pieces for the short-read front-ends
+fn split_pieces(which: &str, text: &str) -> Vec<Vec<u8>> {
+    let b = text.as_bytes();
+    match which {
+        "reader-bytewise" => b.iter().map(|x| vec![*x]).collect(),
+        "reader-members" => {
+            // a new piece at every line that starts a member (or a comment)
+            let mut out: Vec<Vec<u8>> = vec![Vec::new()];
+            for line in text.split_inclusive(|c| c == '\n' || c == '\r' || c == '\u{2028}' || c == '\u{2029}') {
+                let t = line.trim_start();
+                if (t.starts_with("method ") || t.starts_with("type ") || t.starts_with("error ") || t.starts_with('#')) && !out.last().unwrap().is_empty() {
+                    out.push(Vec::new());
+                }
+                out.last_mut().unwrap().extend_from_slice(line.as_bytes());
+            }
+            out
+        }
+        "reader-ragged" => {
+            // pieces of 1, 2, 3, … bytes
+            let mut out = Vec::new();
+            let (mut i, mut n) = (0usize, 1usize);
+            while i < b.len() {
+                let e = (i + n).min(b.len());
+                out.push(b[i..e].to_vec());
+                i = e;
+                n += 1;
+            }
+            out
+        }
+        _ => {
+            // two pieces, cut right after the first member (Cursor::chain of two buffers; a pipe written twice)
+            let cut = text.find("\n\n").map(|p| p + 1).or_else(|| text.find('\n').map(|p| p + 1)).unwrap_or(b.len() / 2).min(b.len());
+            let cut = if cut == 0 || cut >= b.len() { b.len() / 2 } else { cut };
+            vec![b[..cut].to_vec(), b[cut..].to_vec()]
+        }
+    }
+}
+
 fn front_obs(which: &str, text: &str, derive_res: &BTreeMap<String, build::BinResult>) -> Sx {
     let accepted = match Idl::parse(text) {
         Ok(_) => sx::atom("ok"),
@@ -983,6 +1087,50 @@ fn front_obs(which: &str, text: &str, derive_res: &BTreeMap<String, build::BinRe
                 Ok(Ok(produced)) => ("ok", !produced.is_empty(), reference(true).map(|r| r == produced)),
                 Ok(Err(_)) => ("err", false, reference(true).map(|_| false)),
                 Err(_) => ("panic", false, reference(true).map(|_| false)),
+            }
+        }
+        "reader-bytewise" | "reader-members" | "reader-chain" | "reader-ragged" => {
+            // generate() on a reader that hands the definition over in several pieces (short reads) before EOF
+            let pieces: Vec<Vec<u8>> = split_pieces(which, text);
+            let mut w: Vec<u8> = Vec::new();
+            let r = std::panic::catch_unwind(std::panic::AssertUnwindSafe(|| {
+                let mut rd = PieceReader { pieces, at: 0, off: 0 };
+                varlink_generator::generate(&mut rd, &mut w, false)
+            }));
+            let produced = String::from_utf8_lossy(&w).to_string();
+            let st = match r {
+                Ok(Ok(())) => "ok",
+                Ok(Err(_)) => "err",
+                Err(_) => "panic",
+            };
+            (st, !produced.is_empty(), reference(false).map(|r| r == produced))
+        }
+        "bin-pipe2" => {
+            // the CLI reading stdin from a pipe that is written in two pieces with a pause in between
+            use std::io::Write;
+            let mut c = std::process::Command::new(build::target_dir().join("debug").join("varlink-rust-generator"));
+            c.arg("--nosource").arg("-").stdin(std::process::Stdio::piped()).stdout(std::process::Stdio::piped()).stderr(std::process::Stdio::piped());
+            match c.spawn() {
+                Err(_) => ("spawn-failed", false, None),
+                Ok(mut child) => {
+                    let bytes = text.as_bytes().to_vec();
+                    let cut = split_pieces("reader-chain", text).first().map(|p| p.len()).unwrap_or(bytes.len() / 2);
+                    if let Some(mut stdin) = child.stdin.take() {
+                        let _ = stdin.write_all(&bytes[..cut]);
+                        let _ = stdin.flush();
+                        std::thread::sleep(std::time::Duration::from_millis(120));
+                        let _ = stdin.write_all(&bytes[cut..]);
+                        let _ = stdin.flush();
+                    }
+                    match child.wait_with_output() {
+                        Ok(o) => {
+                            let produced = String::from_utf8_lossy(&o.stdout).to_string();
+                            let err = String::from_utf8_lossy(&o.stderr).to_string();
+                            (status_of(o.status.code(), &err), !produced.is_empty(), reference(false).map(|r| r == produced))
+                        }
+                        Err(_) => ("wait-failed", false, None),
+                    }
+                }
             }
         }
         "bin" | "bin-stdin" => {
@@ -1192,7 +1340,12 @@ fn regen_obs(which: &str, first: &str, second: &str) -> Sx {
     let input = base.join("org.example.regen.varlink");
     let mut last = (None, String::new());
     for text in [first, second] {
-        std::fs::write(&input, text).expect("front input");
+        // an unchanged definition is left untouched (its mtime stays older than the output of the first run)
+        if std::fs::read_to_string(&input).ok().as_deref() != Some(text) {
+            std::fs::write(&input, text).expect("front input");
+        }
+        // file system timestamps have a coarse grain
+        std::thread::sleep(std::time::Duration::from_millis(15));
         let mut c = std::process::Command::new(build::bin_path("fe_build"));
         c.arg(which).arg(&out).arg(&input);
         let (code, _, err) = run_tool(&mut c);
